@@ -137,4 +137,5 @@ def check(ctx):
     check_write(ctx)
     check_iterate(ctx)
     wal.check_reassembly(ctx)
+    wal.check_silent_skip(ctx)
     wal.check_emit(ctx)
